@@ -3,6 +3,7 @@
 
 pub mod checks;
 pub mod core;
+pub mod corekit;
 pub mod env;
 pub mod sim;
 
